@@ -6,6 +6,7 @@ from ..r_reaction import rule_role_zip
 from ..r_hygiene import rule_hygiene as _rule_hygiene
 from ..r_mdl import rule_first_m_end as _rule_first_m_end
 from ..r_alias import rule_retry_flush as _rule_retry_flush
+from ..r_round8 import rule_mol_property_positions as _r8_pos
 
 LEVEL = 'other'
 EXEMPT = {
@@ -39,3 +40,4 @@ def run(ck, repo):
     rule_rxn_drop_bookkeeping(ck, repo, 'C11.D1-dropped-component-bookkeeping')
     rule_star_point_lookup(ck, repo, 'C11.D3-star-point-lookup')
     rule_rdf_header_once(ck, repo, 'C11.D3-rdf-header-once')
+    _r8_pos(ck, repo, 'C11.D6-property-line-positions')
